@@ -27,6 +27,7 @@ type SpecWeight struct {
 }
 
 type Spec struct {
+	Presence string // "metric": an optional metric is written iff it is defined; "group": its whole group is written iff any member is defined
 	Weights  []SpecWeight
 	Modifies [][2]string
 	Version string
@@ -73,6 +74,8 @@ func loadSpec(ver string) (*Spec, error) {
 		case "group":
 			s.Groups[f[1]] = f[2:]
 			s.GOrder = append(s.GOrder, f[1])
+		case "presence":
+			s.Presence = f[1]
 		case "weight":
 			sw := SpecWeight{Name: f[1], Metric: f[2], W: map[string]string{}}
 			for i := 3; i+1 < len(f); i += 2 {
@@ -424,6 +427,88 @@ func (w *World) PreludeFor(pkg string) (string, []*Oblig, error) {
 			}
 			fmt.Fprintf(&body, "(define-fun valsarr%s ((c %s)) (Array Int (_ BitVec 8)) %s)\n", V, T, e)
 			preludeSorts["valsarr"+V] = SArrB
+		}
+		// canonical form: segment k = [sep] name ":" value, written iff present
+		{
+			grpOf := map[string]string{}
+			for g, ms := range spec.Groups {
+				for _, m := range ms {
+					grpOf[m] = g
+				}
+			}
+			pos := fmt.Sprintf("%d", len(spec.Header))
+			fmt.Fprintf(&body, "(define-fun segpos%s_0 ((c %s)) Int %s)\n", V, T, pos)
+			var canon []string
+			canon = append(canon, fmt.Sprintf("(= (s.len s) (canonLen%s c))", V))
+			for i := 0; i < len(spec.Header); i++ {
+				canon = append(canon, fmt.Sprintf("(= (select (s.arr s) (+ (s.off s) %d)) #x%02x)", i, spec.Header[i]))
+			}
+			var lenDefs strings.Builder
+			for k, m := range spec.Metrics {
+				// presence
+				pres := "true"
+				if !m.Mandatory {
+					if spec.Presence == "group" {
+						var cs []string
+						for _, gm := range spec.Groups[grpOf[m.Name]] {
+							cs = append(cs, fmt.Sprintf("(not (= (f%s_%s c) #x00))", V, gm))
+						}
+						pres = "(or " + strings.Join(cs, " ") + ")"
+					} else {
+						pres = fmt.Sprintf("(not (= (f%s_%s c) #x00))", V, m.Name)
+					}
+				}
+				fmt.Fprintf(&body, "(define-fun present%s_%d ((c %s)) Bool %s)\n", V, k, T, pres)
+				sep := "/"
+				if k == 0 && (spec.Header == "" || strings.HasSuffix(spec.Header, "/")) {
+					sep = ""
+				}
+				prefix := sep + m.Name + ":"
+				codes := byMetric[m.Name].Codes
+				vl := "0"
+				for ci := len(codes) - 1; ci >= 0; ci-- {
+					vl = fmt.Sprintf("(ite (= (f%s_%s c) #x%02x) %d %s)", V, m.Name, ci, len(codes[ci]), vl)
+				}
+				fmt.Fprintf(&body, "(define-fun seglen%s_%d ((c %s)) Int (ite (present%s_%d c) (+ %d %s) 0))\n", V, k, T, V, k, len(prefix), vl)
+				fmt.Fprintf(&body, "(define-fun segpos%s_%d ((c %s)) Int (+ (segpos%s_%d c) (seglen%s_%d c)))\n", V, k+1, T, V, k, V, k)
+				// bytes of the segment at segpos_k
+				var bs []string
+				for j := 0; j < len(prefix); j++ {
+					bs = append(bs, fmt.Sprintf("(= (select (s.arr s) (+ (s.off s) (+ (segpos%s_%d c) %d))) #x%02x)", V, k, j, prefix[j]))
+				}
+				for ci, val := range codes {
+					var vb []string
+					for j := 0; j < len(val); j++ {
+						vb = append(vb, fmt.Sprintf("(= (select (s.arr s) (+ (s.off s) (+ (segpos%s_%d c) %d))) #x%02x)", V, k, len(prefix)+j, val[j]))
+					}
+					bs = append(bs, fmt.Sprintf("(=> (= (f%s_%s c) #x%02x) (and %s))", V, m.Name, ci, strings.Join(vb, " ")))
+				}
+				fmt.Fprintf(&lenDefs, "(define-fun segok%s_%d ((s Str) (c %s)) Bool (=> (present%s_%d c) (and %s)))\n", V, k, T, V, k, strings.Join(bs, " "))
+				canon = append(canon, fmt.Sprintf("(segok%s_%d s c)", V, k))
+				preludeSorts[fmt.Sprintf("segok%s_%d", V, k)] = SBool
+				preludeSorts[fmt.Sprintf("segpos%s_%d", V, k)] = SInt
+				preludeSorts[fmt.Sprintf("seglen%s_%d", V, k)] = SInt
+				preludeSorts[fmt.Sprintf("present%s_%d", V, k)] = SBool
+			}
+			preludeSorts[fmt.Sprintf("segpos%s_%d", V, n)] = SInt
+			fmt.Fprintf(&body, "(define-fun canonLen%s ((c %s)) Int (segpos%s_%d c))\n", V, T, V, n)
+			preludeSorts["canonLen"+V] = SInt
+			body.WriteString(lenDefs.String())
+			fmt.Fprintf(&body, "(define-fun isCanon%s ((s Str) (c %s)) Bool (and %s))\n", V, T, strings.Join(canon, " "))
+			preludeSorts["isCanon"+V] = SBool
+			// prefix property after the first k+1 segments have been written into a buffer of length segpos_{k+1}
+			for k := range spec.Metrics {
+				var cs []string
+				cs = append(cs, fmt.Sprintf("(= (s.len s) (segpos%s_%d c))", V, k+1))
+				for i := 0; i < len(spec.Header); i++ {
+					cs = append(cs, fmt.Sprintf("(= (select (s.arr s) (+ (s.off s) %d)) #x%02x)", i, spec.Header[i]))
+				}
+				for j := 0; j <= k; j++ {
+					cs = append(cs, fmt.Sprintf("(segok%s_%d s c)", V, j))
+				}
+				fmt.Fprintf(&body, "(define-fun canonPrefix%s_%d ((s Str) (c %s)) Bool (and %s))\n", V, k, T, strings.Join(cs, " "))
+				preludeSorts[fmt.Sprintf("canonPrefix%s_%d", V, k)] = SBool
+			}
 		}
 		// view equality
 		{
